@@ -492,4 +492,99 @@ def _items():
                   inject_head=INTERNAL_TRAIT_GHOST, fns_cfg=internal_trait))
     I.append(dict(file='src/lexer.rs', header=r"^impl<'source, Token> LexerInternal<'source> for Lexer<'source, Token>", name='Lexer(LexerInternal)',
                   inject_head=INTERNAL_IMPL_GHOST, fns_cfg=internal_impl))
+
+# ---------------------------------------------------------------------------------------------
+# src/internal.rs: the callback return-value dispatch (C13).  The documented table
+# (book/src/callbacks.md, src/lib.rs docs) row by row.
+
+def INTO(e, out):
+    return 'call_ensures(<E as Into<L::Error>>::into, (%s,), %s)' % (e, out)
+
+CON_TOTAL = ['forall|p: P| con.requires((p,))']
+EMIT = lambda v: 'r matches CallbackResult::Emit(t) && con.ensures((%s,), t)' % v
+
+CONSTRUCT = [
+ # (header regex, name, con param name, ensures)
+ (r"CallbackRetVal<'a, T, L> for T$", 'construct[T]', 'con',
+  [EMIT('self')]),
+ (r"CallbackRetVal<'a, T, L> for Result<T, E>$", 'construct[Result<T,E>]', 'con',
+  ['self matches Ok(v) ==> (' + EMIT('v') + ')',
+   'self matches Err(e) ==> (r matches CallbackResult::Error(e2) && ' + INTO('e', 'e2') + ')']),
+ (r"CallbackRetVal<'a, T, L> for Option<T>$", 'construct[Option<T>]', 'con',
+  ['self matches Some(v) ==> (' + EMIT('v') + ')',
+   'self is None ==> r is DefaultError']),
+ (r"CallbackRetVal<'a, T, L> for Filter<T>$", 'construct[Filter<T>]', 'con',
+  ['self matches Filter::Emit(v) ==> (' + EMIT('v') + ')',
+   'self is Skip ==> r is Skip']),
+ (r"CallbackRetVal<'a, T, L> for FilterResult<T, E>$", 'construct[FilterResult<T,E>]', 'con',
+  ['self matches FilterResult::Emit(v) ==> (' + EMIT('v') + ')',
+   'self is Skip ==> r is Skip',
+   'self matches FilterResult::Error(e) ==> (r matches CallbackResult::Error(e2) && ' + INTO('e', 'e2') + ')']),
+ (r"CallbackRetVal<'a, \(\), L> for bool$", 'construct[bool]', 'con',
+  ['self ==> (' + EMIT('()') + ')', '!self ==> r is DefaultError']),
+ (r"CallbackRetVal<'a, \(\), L> for Skip$", 'construct[Skip]', '_con',
+  ['r is Skip']),
+ (r"CallbackRetVal<'a, \(\), L> for Result<Skip, E>$", 'construct[Result<Skip,E>]', '_con',
+  ['self is Ok ==> r is Skip',
+   'self matches Err(e) ==> (r matches CallbackResult::Error(e2) && ' + INTO('e', 'e2') + ')']),
+ (r"CallbackRetVal<'a, \(\), L> for L$", 'construct[L]', '_con',
+  ['r matches CallbackResult::Emit(t) && t == self']),
+ (r"CallbackRetVal<'a, \(\), L> for Result<L, E>$", 'construct[Result<L,E>]', '_con',
+  ['self matches Ok(v) ==> (r matches CallbackResult::Emit(t) && t == v)',
+   'self matches Err(e) ==> (r matches CallbackResult::Error(e2) && ' + INTO('e', 'e2') + ')']),
+ (r"CallbackRetVal<'a, \(\), L> for Filter<L>$", 'construct[Filter<L>]', '_con',
+  ['self matches Filter::Emit(v) ==> (r matches CallbackResult::Emit(t) && t == v)',
+   'self is Skip ==> r is Skip']),
+ (r"CallbackRetVal<'a, \(\), L> for FilterResult<L, E>$", 'construct[FilterResult<L,E>]', '_con',
+  ['self matches FilterResult::Emit(v) ==> (r matches CallbackResult::Emit(t) && t == v)',
+   'self is Skip ==> r is Skip',
+   'self matches FilterResult::Error(e) ==> (r matches CallbackResult::Error(e2) && ' + INTO('e', 'e2') + ')']),
+]
+
+SKIP_CONSTRUCT = [
+ (r"SkipRetVal<'a, L> for \(\)$", 'skip_construct[()]', ['r is Skip']),
+ (r"SkipRetVal<'a, L> for Skip$", 'skip_construct[Skip]', ['r is Skip']),
+ (r"SkipRetVal<'a, L> for Result<\(\), E>$", 'skip_construct[Result<(),E>]',
+  ['self is Ok ==> r is Skip', 'self matches Err(e) ==> (r matches SkipResult::Error(e2) && ' + INTO('e', 'e2') + ')']),
+ (r"SkipRetVal<'a, L> for Result<Skip, E>$", 'skip_construct[Result<Skip,E>]',
+  ['self is Ok ==> r is Skip', 'self matches Err(e) ==> (r matches SkipResult::Error(e2) && ' + INTO('e', 'e2') + ')']),
+]
+
+def _internal_items():
+    I = UNIT['items']
+    I.append(dict(file='src/internal.rs', header=r"^pub enum CallbackResult<'a", name='CallbackResult'))
+    I.append(dict(file='src/internal.rs', header=r"^pub trait CallbackRetVal<'a, P, L", name='CallbackRetVal',
+                  fns_cfg=lambda cfg: {'construct': dict(ret='r', requires=CON_TOTAL, props=['C13'])}))
+    for (hdr, name, con, ens) in CONSTRUCT:
+        e2 = [x.replace('con.ensures', con + '.ensures') for x in ens]
+        I.append(dict(file='src/internal.rs', header=hdr, name=name,
+                      fns_cfg=(lambda e2: (lambda cfg: {'construct': dict(ret='r', ensures=e2, props=['C13'])}))(e2)))
+
+def _skip_items(I):
+    I.append(dict(file='src/internal.rs', header=r"^pub enum CallbackResult<'a", name='CallbackResult'))
+    I.append(dict(file='src/internal.rs', header=r"^pub enum SkipResult<'a", name='SkipResult'))
+    I.append(dict(file='src/internal.rs', header=r"^impl<'a, L: Logos<'a>> From<SkipResult<'a, L>> for CallbackResult<'a, L>$", name='From<SkipResult>',
+                  rehead="impl<'a, L: Logos<'a>> CallbackResult<'a, L>",
+                  fns_cfg=lambda cfg: {'from': dict(ret='r', ensures=[
+                      'value is Skip ==> r is Skip',
+                      'value matches SkipResult::Error(e) ==> (r matches CallbackResult::Error(e2) && e2 == e)'], props=['C13'])}))
+    # The contract is stated once on the trait through a per-impl spec function (an impl-level `ensures` on a method
+    # whose trait parameter `L` occurs only in the return type trips Verus's stub type inference).
+    I.append(dict(file='src/internal.rs', header=r"^pub trait SkipRetVal<'a, L", name='SkipRetVal',
+                  inject_head="    spec fn skip_post(self, r: SkipResult<'a, L>) -> bool;\n",
+                  fns_cfg=lambda cfg: {'construct': dict(ret='r', ensures=['self.skip_post(r)'], props=['C13'])}))
+    for (hdr, name, ens) in SKIP_CONSTRUCT:
+        body = ' && '.join('(%s)' % e for e in ens)
+        I.append(dict(file='src/internal.rs', header=hdr, name=name,
+                      inject_head="    open spec fn skip_post(self, r: SkipResult<'a, L>) -> bool { %s }\n" % body,
+                      fns_cfg=lambda cfg: {'construct': dict(props=['C13'])}))
+
 _items()
+BASE_ITEMS = list(UNIT['items'])
+_internal_items()
+
+# Verus 0.2026.09.13 resolves the method stub it generates for an impl-level `ensures` by name only, so the two traits
+# that both call their method `construct` (CallbackRetVal, SkipRetVal) cannot be verified in one file when a type
+# implements both (`Skip`, `Result<Skip, E>`): the SkipRetVal family is unit v_skip (same base items, same text).
+UNIT_SKIP = dict(name='v_skip', prelude=prelude, epilogue=EPILOGUE, items=list(BASE_ITEMS))
+_skip_items(UNIT_SKIP['items'])
